@@ -45,6 +45,7 @@ func SetFreeze(at int64, torn bool) {
 }
 func AddFault(at int64, kind int) { C.vshim_add_fault(C.int64_t(at), C.int(kind)) }
 func SetKill(at int64)            { C.vshim_set_kill(C.int64_t(at)) }
+func ClearFaults()                { C.vshim_clear_faults() }
 func Ordinal() int64              { return int64(C.vshim_ordinal()) }
 func LockOrdinal() int64          { return int64(C.vshim_lock_ordinal()) }
 func Frozen() bool                { return C.vshim_frozen() != 0 }
